@@ -7,7 +7,7 @@ EXPLANATION = ("Chunk shapes are enumerated, field values are symbolic (integers
                "(prefix length, number of surplus reads) is symbolic and value-forked. Real EoWriter (sanitising) and real EoReader (chunked).")
 NONTRAIL = ("char", "short", "three", "int", "fixed_string", "fixed_encoded_string")
 TRAIL = ("string", "encoded_string")
-BOUNDS = {"quick": "2 chunks: first chunk any shape of <= 2 fields over 8 kinds (unbounded strings last) with every read plan (prefix 0..n, surplus 0..2), second chunk one of 5 probe shapes; strings of 2 code points",
+BOUNDS = {"quick": "3 chunks over a 4-shape basis with every read plan for the first two (incl. skipping a middle chunk untouched); 2 chunks: first chunk any shape of <= 2 fields over 8 kinds (unbounded strings last) with every read plan (prefix 0..n, surplus 0..2), second chunk one of 5 probe shapes; strings of 2 code points",
           "thorough": "quick plus string lengths 0..3 and all 3-chunk combinations over a 9-shape basis with every read plan"}
 OUTSIDE = "more chunks / more fields per chunk / longer strings; sanitisation off (then 0xFF may appear in strings, outside the property's premise)"
 ASSUMPTIONS = ["'~' excluded from encoded strings (the format cannot carry it: C08)"]
@@ -35,6 +35,13 @@ def jobs(tier):
             for b in PROBES:
                 js.append(dict(name=f"chunks[{'+'.join(a)}|{'+'.join(b)},L={L}]", fn="chunks", args=[[list(a), list(b)], L, list(SURPLUS)],
                                collect_models=1, expect=["last chunk consumed exactly"]))
+    if q:
+        small = [("char",), ("short", "string"), ("fixed_string",), ()]
+        for a in small:
+            for b in small:
+                for c in PROBES[:2]:
+                    js.append(dict(name=f"chunks3[{'+'.join(a)}|{'+'.join(b)}|{'+'.join(c)}]", fn="chunks", args=[[list(a), list(b), list(c)], 2, list(SURPLUS)],
+                                   collect_models=1, expect=["last chunk consumed exactly"]))
     if not q:
         basis = [(), ("char",), ("int", "string"), ("short", "fixed_string"), ("encoded_string",), ("three", "char"),
                  ("fixed_encoded_string", "string"), ("string",), ("char", "encoded_string")]
